@@ -365,3 +365,9 @@ Proof.
     cbn [fst snd]. split; [reflexivity|]. intros i Hi. apply remix_inverse; assumption.
   - pose proof (solution_is_optimal q Hs (pullback M q Hs') segs Hsol) as Hle. rewrite <- sum_sq_remix in Hle. exact Hle.
 Qed.
+
+(* non-vacuity: one input, one segment X = 1, Y = 2: H = 2 solves T H = S, residual 0 *)
+Example normal_equations_satisfiable :
+  let segs := [((fun _ : nat => (1, 0)), (2, 0))] in
+  forall i, (i < 1)%nat -> csumf (fun j => cmul (acc_T segs i j) ((fun _ => (2, 0)) j)) 1 = acc_S segs i.
+Proof. intros segs i Hi. unfold csumf, csum, segs. cbn [seq map fold_right acc_T acc_S]. cring. Qed.
